@@ -9,7 +9,7 @@ VERIF = os.path.dirname(os.path.dirname(os.path.abspath(__file__)))
 T = {
     "C01-A": ("C01", "evidence-reduced factors stored under the inherited tag: value-identical reduced factors collapse in the working-factor set", "non-greedy elimination order + hard evidence + two factors that are bit-identical after conditioning (identical sensor CPDs observed in the same state)", ["C01", "C03"], False),
     "C02-A": ("C02", "query() reuses beliefs left by max_calibrate() as sum-marginals", "one engine: max_calibrate() then query()", ["C02"], False),
-    "C02-B": ("C02", "triangulate uses neighbours in the original graph, so fill-in edges never cascade", "a chordless cycle of length >= 5 in the moral / interaction graph (some deletion orders for 5-6, all for >= 7)", ["C02", "C14"], False),
+    "C02-B": ("C02", "triangulate uses neighbours in the original graph, so fill-in edges never cascade", "a chordless cycle of length >= 5 in the moral / interaction graph (some deletion orders for 5-6, all for >= 7)", ["C02", "C14"], True),
     "C03-A": ("C03", "same slip as C01-A reached through map_query / predict", "two observed nodes with identical reduced likelihood tables", ["C03", "C01"], False),
     "C03-B": ("C03", "pruned-network cache keyed on (query variables, evidence names) survives virtual-evidence re-initialisation", "one VE engine: virtual evidence on X, then the same question shape with another likelihood on X", ["C16"], False),
     "C04-A": ("C04", "sum(): cardinalities of new variables collected in the right operand's order, variables appended in set order", "right operand brings >= 2 new variables with different cardinalities and set order != listing order (hash-seed dependent)", ["C04"], False),
@@ -20,7 +20,7 @@ T = {
     "C07-B": ("C07", "normalisation error added to the last element instead of the arg-max", "root distribution summing to slightly less than one whose last state has probability 0", ["C07"], False),
     "C09-A": ("C09", "unanchored (table|default) detection in BIF probability blocks", "a conditional block whose child / last parent / last parent state name ends in 'table' or 'default'", ["C09"], False),
     "C09-B": ("C09", "UAI writer: numeric sort of cardinalities in the preamble, string sort in the Markov function scopes", "Markov network with a cardinality >= 10 next to a smaller one with a larger leading digit", ["C09"], False),
-    "C10-A": ("C10", "state_counts(reindex=False) fast path encodes parent configurations with stride updated too early", ">= 2 parents of different cardinality, the larger listed first, both colliding configurations observed", ["C10"], False),
+    "C10-A": ("C10", "state_counts(reindex=False) fast path encodes parent configurations with stride updated too early", ">= 2 parents of different cardinality, the larger listed first, both colliding configurations observed", ["C10"], True),
     "C10-B": ("C10", "BDeu/BDs store int(equivalent_sample_size)", "a non-integer equivalent sample size", ["C10"], False),
     "C11-A": ("C11", "max_indegree test moved ahead of the cycle checks; flip branch uses > instead of >=", "finite max_indegree k and a best move that reverses X->Y while X already has k parents", ["C11"], False),
     "C11-B": ("C11", "Chow-Liu weight memo per estimator, not keyed on edge_weights_fn", "one TreeSearch object, two estimate() calls with different edge_weights_fn whose maximum spanning trees differ", ["C11"], False),
@@ -92,6 +92,16 @@ T = {
     "C16-F": ("C16", "message-passing BP normalises the single incoming message in place (the unary factor's / virtual evidence's own array)", "loop-free factor graph with an unnormalised unary factor or unnormalised virtual evidence", ["C16"], False),
     "C17-E": ("C17", "evidence entered into the first clique potential containing the variable only", "forward_inference with slice-0 evidence on a variable lying in two cliques", ["C17"], False),
     "C17-F": ("C17", "initialize_initial_state iterates over slice-0 CPDs only", "a template whose intra-slice CPDs are given for slice 1 only", ["C17"], False),
+    "C06-G": ("C06", "fit_update transposes the previous CPD with the inverse of the needed permutation", "a node with >= 3 parents whose current CPD lists its evidence in a rotated order", ["C06"], False),
+    "C06-H": ("C06", "BayesianEstimator caches state counts per (node, parents) without the weighted flag", "one estimator object asked for the same node with weighted=False and weighted=True", ["C06"], False),
+    "C07-G": ("C07", "rejection_sample filters on the visible columns only: evidence on a hidden latent is ignored", "latent evidence variable and include_latents=False", ["C07"], False),
+    "C07-H": ("C07", "MarkovChain.set_start_state keeps the caller's list when it is already in variable order", "the same start_state list reused for a second GibbsSampling.sample call", ["C07"], False),
+    "C13-G": ("C13", "CausalInference.query builds the per-state evidence on top of the caller's do dict", "the same do dict reused in a later query with another adjustment set", ["C13", "C16"], False),
+    "C13-H": ("C13", "front-door back-door-blocking test accepts if any member of Z passes", "|Z| >= 2 with one member whose back-door path to Y is open", ["C13"], False),
+    "C15-G": ("C15", "BayesianNetwork.copy shares the latent set with the original", "copy, then add_node(latent=True) on either model", ["C15"], False),
+    "C15-H": ("C15", "ClusterGraph.add_edge registers both cliques before the sepset check", "a rejected edge between disjoint cliques with a clique not yet in the graph", ["C15"], False),
+    "C16-G": ("C16", "compat to_numpy returns the array itself: the samplers' weight correction is written into the model's CPD", "a parentless node whose CPD column does not sum to exactly one and a direct sampling-engine call", ["C16", "C07"], False),
+    "C16-H": ("C16", "DiscreteFactor.sum copies the addend only when it needs extra axes: axis alignment permutes the caller's factor", "factor addition where the addend covers the left operand's variables in another order with unequal cardinalities", ["C04"], False),
     "C17-B": ("C17", "initialize_initial_state pairs parent cardinalities with reversed parent names", "a CPD given for one slice with >= 2 same-slice parents of different cardinalities", ["C17"], True),
 }
 
